@@ -861,6 +861,14 @@ class TreeTransform(Generic[TreeFnT]):
     """Behave like Chain, but also fuse all the fns into one transform."""
     if child.is_noop:
       return self
+    if self.agg_fns and child.fns:
+      # The fused runner calls all fns before any aggregation, so the child's
+      # fns would be moved in front of this transform's aggregations.
+      raise ValueError(
+          'Aggregation has to be the last node, cannot fuse a transform with'
+          f' functions {child.fns=} into "{self.name}" that already has'
+          ' aggregations; chain it under a different name instead.'
+      )
     if self.agg_output_keys.intersection(child.agg_output_keys):
       raise ValueError(
           'Cannot chain a transform with conflicting agg_output_keys'
